@@ -108,6 +108,14 @@ func c02Docs(rng *rand.Rand, nRandom int) []c02Doc {
 		p := r["components"].(map[string]any)["schemas"].(map[string]any)["Pet"].(map[string]any)["properties"].(map[string]any)["kind"].(map[string]any)
 		p["enum"] = []any{"", " ", "cat"}
 	}), "enum_sanitised_name_collision"})
+	// a composition that only type generation resolves (no operation names it): its base type is emitted before the merge runs
+	docs = append(docs, c02Doc{"wide + allOf composition reached through components only", mutateJSON(c02Wide, func(r map[string]any) {
+		sc := r["components"].(map[string]any)["schemas"].(map[string]any)
+		sc["Creature"] = map[string]any{"type": "object", "required": []any{"name"}, "properties": map[string]any{"name": map[string]any{"type": "string"}}}
+		sc["Hound"] = map[string]any{"allOf": []any{map[string]any{"$ref": "#/components/schemas/Creature"},
+			map[string]any{"type": "object", "properties": map[string]any{"barks": map[string]any{"type": "boolean"}, "breed": map[string]any{"type": "string"}}}}}
+		sc["Pet"].(map[string]any)["properties"].(map[string]any)["hound"] = map[string]any{"$ref": "#/components/schemas/Hound"}
+	}), ""})
 	for i := 0; i < nRandom; i++ {
 		d, _ := gendoc.Generate(rng, tameOpts())
 		docs = append(docs, c02Doc{fmt.Sprintf("random#%d", i), d.JSON(), ""})
@@ -173,6 +181,26 @@ func runC02(r *Report, rng *rand.Rand, thorough bool) {
 					outs[call.run()]++
 					runs++
 				}
+				// the same LOADED document generated again and again (a generation must not change its input in a way that shows)
+				one := call.runOnOneDocument(3)
+				runs += len(one)
+				r.Dist["same_loaded_document_generated_three_times"]++
+				outs[one[0]]++
+				for k := 1; k < len(one); k++ {
+					if one[k] == one[0] {
+						continue
+					}
+					sig := "later_generation_from_one_loaded_document_differs"
+					if cfg.Generate.EmbeddedSpec && bytes.Contains(d.spec, []byte(`.yaml#/`)) {
+						// the embedded specification is made by InternalizeRefs on the caller's document: components of other
+						// documents become local ones, and the next generation declares them as local types
+						sig = "embedded_spec_internalises_references_in_the_callers_document"
+					} else if d.sig != "" {
+						sig = d.sig // a document with a recorded order dependence: any two generations may differ
+					}
+					r.Violate(sig, fmt.Sprintf("document %q (configuration %d, skip-fmt=%v): generation %d from the same loaded document differs from the first: %s", d.label, ci, skipFmt, k+1, firstLineDiff(one[0], one[k])), call)
+					break
+				}
 				nproc := kProc
 				if strings.HasPrefix(d.label, "random") || skipFmt {
 					nproc = 1
@@ -223,7 +251,7 @@ func runC02(r *Report, rng *rand.Rand, thorough bool) {
 			}
 		}
 	}
-	r.Rule = fmt.Sprintf("each (document, configuration, skip-fmt) generated %d+ times in one process (every second time after a generation of the same document under another configuration: name normaliser, suffix and client type name, import mapping), in fresh processes (fresh hash seeds) and from %d random permutations of every JSON object's members; all outputs (or error strings) must be byte-identical; documents: one wide document with >= 3 entries in every map the generator walks (paths, operations, properties, content types, responses, headers, import mappings, discriminator mappings, x-go-type imports, encodings, security requirements, extensions; sibling property names that differ only in letter case), its variants with known order dependences, and random documents; non-trivial = generation succeeds", kIn+1, kPerm)
+	r.Rule = fmt.Sprintf("each (document, configuration, skip-fmt) generated %d+ times in one process (every second time after a generation of the same document under another configuration: name normaliser, suffix and client type name, import mapping; three times from one loaded document value), in fresh processes (fresh hash seeds) and from %d random permutations of every JSON object's members; all outputs (or error strings) must be byte-identical; documents: one wide document with >= 3 entries in every map the generator walks (paths, operations, properties, content types, responses, headers, import mappings, discriminator mappings, x-go-type imports, encodings, security requirements, extensions; sibling property names that differ only in letter case), its variants with known order dependences, and random documents; non-trivial = generation succeeds", kIn+1, kPerm)
 }
 
 func onlyImportOrderDiffers(outs map[string]int) bool {
